@@ -230,7 +230,7 @@ def check_sections(fx, rep, rule, wv, seqs):
         for fld_, lenf, vec_ in (("num_members", "members_len", members_v), ("num_members_by_params", "members_by_params_len", byparams_v)):
             t = strip_cast(h.get(fld_, ("?",)))
             good = t == veclen(vec_)         # alternative: the length of exactly the vector that is emitted
-            if not good and t[0] == "call" and t[1].endswith("Iterator::sum") and t[2][0][0] == "call" and t[2][0][1].endswith("Iterator::map"):
+            if not good and t[0] == "call" and "Iterator::sum::<" in t[1] and t[2][0][0] == "call" and t[2][0][1].endswith("Iterator::map"):
                 src, clo = t[2][0][2]
                 if src[0] == "call" and src[1].endswith(("BTreeMap::values", "BTreeMap::into_values")) and src[2][0] == cm and clo[0] == "closure":
                     sy2 = S.Sym(fx)
